@@ -247,6 +247,9 @@ def _boundary_grid_with_n(main_domain, domain_a, domain_b, n, params, device):
     # the main domain.
     a_surface = domain_a.boundary.volume(params, device=device)
     b_surface = domain_b.boundary.volume(params, device=device)
+    if sum_of_correct == 0:
+        # no grid point was on the boundary: no estimate, start from the whole surfaces
+        a_correct, b_correct = n, n
     approx_surface = a_surface * a_correct / n + b_surface * b_correct / n
     scaled_a = int(n * a_surface / approx_surface) + 1  # round up
     scaled_b = max(int(n * b_surface / approx_surface), 1)  # round to floor, but not 0
